@@ -23,7 +23,10 @@ use graphql_lang_types::{
 };
 use prelude::Postfix;
 
-use super::{description::parse_optional_description, peekable_lexer::PeekableLexer};
+use super::{
+    description::{clean_block_string_literal, parse_optional_description},
+    peekable_lexer::PeekableLexer,
+};
 
 pub fn parse_schema(
     source: &str,
@@ -664,6 +667,19 @@ fn parse_constant_value(
                     without_quotes.map(GraphQLConstantValue::String)
                 },
             )
+        })?;
+
+        // A block string is a StringValue as well
+        to_control_flow(|| {
+            tokens
+                .parse_source_of_kind(TokenKind::BlockStringLiteral)
+                .map(|block_string| {
+                    block_string.map(|source| {
+                        GraphQLConstantValue::String(
+                            clean_block_string_literal(source).intern().into(),
+                        )
+                    })
+                })
         })?;
 
         to_control_flow(|| {
